@@ -56,7 +56,9 @@ class MonArr:
             return object.__getattribute__(self, "_shape")
         if name == "dtype":
             return object.__getattribute__(self, "_dtype")
-        if name in ("__class__", "__dict__", "_shape", "_dtype"):
+        if name in ("__class__", "__dict__", "_shape", "_dtype", "ndim", "item", "tolist", "any", "all", "max", "min",
+                    "sum", "mean", "astype", "tobytes", "nonzero", "argmax", "argmin", "copy", "flatten", "ravel",
+                    "reshape", "squeeze", "block_until_ready"):
             return object.__getattribute__(self, name)
         # an attribute *probe* is not a value access (a tracer answers those too): kept apart
         MonArr.probes.append(name)
@@ -76,6 +78,23 @@ class MonArr:
                "__invert__", "__hash_value__"):
         locals()[_n] = _rec(_n)
     del _n, _rec
+
+    # methods a tracer *has* (so hasattr() is true) but which need / expose element values
+    def _valmethod(name):  # noqa
+        def f(self, *a, **k):
+            MonArr.log.append(name + "()")
+            raise TypeError(f"MonArr: value-dependent operation {name}()")
+        f.__name__ = name
+        return f
+
+    for _n in ("item", "tolist", "any", "all", "max", "min", "sum", "mean", "astype", "tobytes", "nonzero",
+               "argmax", "argmin", "copy", "flatten", "ravel", "reshape", "squeeze", "block_until_ready"):
+        locals()[_n] = _valmethod(_n)
+    del _n, _valmethod
+
+    @property
+    def ndim(self):
+        return len(object.__getattribute__(self, "_shape"))
 
     def __eq__(self, o):
         if o is self:
